@@ -251,6 +251,26 @@ def run(ctx):
                       "%s reads the shared event stream (line(s) %s) in the bare `Variant` notation: the node that follows the variant name in the enclosing container is consumed as its payload (`[A, 5]` -> `[A(5)]`)" %
                       (g.name, sorted({g.blocks[b]["term"].get("ln") for b in leak})), config, ctx.where(g))
         ctx.floor("OWN-NODE.VA.stream-uses", nuse, 20, config)
+        # STYLE-KEPT: an event that carries text of the document carries the document's style (null-likeness, bool / number
+        # inference and option handling all depend on it).  A scalar event built with a *constant* style is synthetic: its
+        # text is the empty constant.  (Forcing Plain on a re-emitted `!Variant "null"` payload turns the quoted text into a null.)
+        nsc = 0
+        for g in sorted(fx.fns.values(), key=lambda g: g.npath):
+            if not g.file.endswith(("src/de.rs", "src/live_events.rs", "src/lib.rs")) or g.d.get("impl_trait") == "std::clone::Clone":
+                continue
+            for b, i, adt, var, fl, ops, s_ in aggregates(g):
+                if adt != "de::Ev" or var != "Scalar":
+                    continue
+                nsc += 1
+                ctx.saw(g)
+                with g.deep():
+                    st = render(g.sym_operand(s_["rv"]["ops"][fl.index("style")]))
+                    vl = render(g.sym_operand(s_["rv"]["ops"][fl.index("value")]))
+                const_style = st.startswith("saphyr_parser_bw::ScalarStyle::")
+                synthetic = vl in ("std::borrow::Cow::Borrowed{''}", "into(new())", "std::borrow::Cow::Owned{new()}", "into('')")
+                ctx.check((not const_style) or synthetic, "STYLE", "C05:STYLE-KEPT:%s" % g.npath.split("::")[-1], "scalar events keep the style of the text they carry (constant style only for the synthetic empty scalar)",
+                          "%s builds a scalar event with the constant style %s around non-constant text (`%s`): the quoting / block style of the document's scalar is lost, so `!O \"null\"` becomes a null payload" % (g.npath, st.split("::")[-1], vl[:60]), config, ctx.where(g, b))
+        ctx.floor("STYLE.scalar-event-sites", nsc, 5, config)
         # KIND: a variant's payload is requested by its declared kind — struct_variant through deserialize_struct / _map,
         # tuple_variant through deserialize_tuple / _seq — never through the typeless deserialize_any, which follows the
         # document's shape instead (a sequence would then fill a struct variant's fields by position).
